@@ -1,2 +1,241 @@
-(** C08 — File locks exclude each other while holders live and recover after a crash. *)
-From CM Require Import FileLock.Model.
+(** C08 — File locks exclude each other while holders live and recover after a crash.
+    Only statements, each closed by [exact] (or a few lines instantiating the repository's
+    configuration), with [Print Assumptions] beneath.
+
+    The model ([FileLock.Model]) is instantiated with [cfg_repo d]: every constant and the
+    two code-shape flags come from Gen.Consts, regenerated from filestorage.go on every run;
+    [d] is the heartbeat latency bound of the timing hypothesis H-live, any value with
+    interval + d <= factor * interval. *)
+From Coq Require Import List ZArith Bool Lia.
+From CM Require Import Lib.Str Lib.SafeSteps Gen.Consts Safe.Model Safe.KeysProofs.
+From CM Require Import FileLock.Model FileLock.Check FileLock.Proofs FileLock.Refuted.
+Import ListNotations.
+Open Scope Z_scope.
+
+Definition H_live (d : Z) : Prop := 0 <= d /\ d <= (lock_stale_factor - 1) * lock_freshness_interval.
+
+(* re-checked on the regenerated constants: the heartbeat compares Created (the fix), the
+   interval is positive, and the staleness factor leaves room for a latency *)
+Lemma repo_checks d : checks (cfg_repo d) = true.
+Proof. reflexivity. Qed.
+Lemma repo_good d : H_live d -> good_cfg (cfg_repo d).
+Proof.
+  unfold H_live, good_cfg, cfg_repo. cbn [interval delta factor].
+  unfold lock_stale_factor, lock_freshness_interval. lia.
+Qed.
+
+(** Mutual exclusion.  For any number of threads in any number of processes and every
+    interleaving of their steps, as long as nobody is killed, live processes run their
+    heartbeats within [d] of the due time (built into [LTick]) and no waiter reaches the
+    empty-retry limit on the empty file of a live holder ([live_ok]): at most one thread
+    holds the lock, however long it is held. *)
+Theorem C08_mutex_no_crash : forall d, H_live d -> forall s t1 t2 i1 i2,
+  reach (cfg_repo d) (live_ok (cfg_repo d)) init s ->
+  cs s t1 = CHolding i1 -> cs s t2 = CHolding i2 -> t1 = t2.
+Proof. intros d Hd. exact (mutex_no_crash (cfg_repo d) (repo_checks d) (repo_good d Hd)). Qed.
+Print Assumptions C08_mutex_no_crash.
+
+(** A waiter acquires only after the holder has released: a create succeeds only in a
+    state where nobody holds, and a holder stops holding only by its own Unlock. *)
+Theorem C08_waiter_after_release : forall d, H_live d -> forall s t s' ec i,
+  reach (cfg_repo d) (live_ok (cfg_repo d)) init s ->
+  step (cfg_repo d) s (LTryCreate t) = Some s' -> cs s' t = CCreated ec i ->
+  forall t' j, cs s t' <> CHolding j.
+Proof. intros d Hd. exact (waiter_after_release (cfg_repo d) (repo_checks d) (repo_good d Hd)). Qed.
+Print Assumptions C08_waiter_after_release.
+
+Theorem C08_holder_leaves_only_by_unlock : forall c s l s' t i, step c s l = Some s' ->
+  cs s t = CHolding i -> cs s' t <> CHolding i -> l = LUnlock t \/ exists p, l = LKill p.
+Proof. exact holder_leaves_only_by_unlock. Qed.
+Print Assumptions C08_holder_leaves_only_by_unlock.
+
+(** A blocked acquisition returns at once with the context's error when cancelled; and a
+    Lock call waits nowhere else than in the select. *)
+Theorem C08_cancel_prompt : forall c s t ec until, cs s t = CSleep ec until ->
+  exists s', step c s (LCancel t) = Some s' /\ cs s' t = CFailed ErrCtx /\ now s' = now s.
+Proof. exact cancel_prompt. Qed.
+Print Assumptions C08_cancel_prompt.
+
+Theorem C08_lock_call_waits_only_in_select : forall c s t,
+  match cs s t with
+  | CTry _ => exists s', step c s (LTryCreate t) = Some s'
+  | CExists _ => exists s', step c s (LOpenRead t) = Some s'
+  | CStale _ => exists s', step c s (LRemove t) = Some s'
+  | CCreated _ _ => lastcreate s < now s -> exists s', step c s (LWriteMeta t) = Some s'
+  | _ => True
+  end.
+Proof. exact lock_call_waits_only_in_select. Qed.
+Print Assumptions C08_lock_call_waits_only_in_select.
+
+(** Recovery (for the code with the heartbeat fix).  The holder's process is killed in
+    ANY reachable state (any history: kills, give-ups, other lock cycles, old heartbeats
+    still around).  In every later state in which the dead holder's lock file is still in
+    place and more than factor * interval has passed since the kill, the file is unchanged
+    and any waiter at the top of its loop obtains the lock by its own next four steps,
+    in no time.  Waiters loop at least every fileLockPollInterval. *)
+Theorem C08_stale_recovers : forall d, H_live d -> forall s0 t i cr u s ls s' w ec,
+  reach (cfg_repo d) any_label init s0 ->
+  cs s0 t = CHolding i -> file s0 = Some i -> content s0 i = FMeta cr (Some u) ->
+  step (cfg_repo d) s0 (LKill (cproc s0 t)) = Some s ->
+  run (cfg_repo d) s ls = Some s' -> file s' = Some i ->
+  lock_stale_factor * lock_freshness_interval < now s' - now s0 ->
+  cs s' w = CTry ec ->
+  content s' i = FMeta cr (Some u) /\
+  exists s4 ec', run (cfg_repo d) s' [LTryCreate w; LOpenRead w; LRemove w; LTryCreate w] = Some s4 /\
+                 cs s4 w = CCreated ec' (nexti s') /\ file s4 = Some (nexti s') /\ now s4 = now s'.
+Proof.
+  intros d Hd s0 t i cr u s ls s' w ec R.
+  apply (stale_recovers (cfg_repo d) (repo_checks d) (repo_good d Hd)).
+  exact (HBInv_reach (cfg_repo d) (repo_checks d) (repo_good d Hd) any_label s0 R).
+Qed.
+Print Assumptions C08_stale_recovers.
+
+(** ... and when the holder died while the file was empty, it stays empty and every read
+    counts towards the retry limit, after which it is treated as stale *)
+Theorem C08_empty_recovers : forall d, H_live d -> forall s0 t i s ls s',
+  reach (cfg_repo d) any_label init s0 ->
+  cs s0 t = CHolding i -> file s0 = Some i -> content s0 i = FEmpty ->
+  step (cfg_repo d) s0 (LKill (cproc s0 t)) = Some s ->
+  run (cfg_repo d) s ls = Some s' -> file s' = Some i ->
+  content s' i = FEmpty /\
+  forall w ec, cs s' w = CExists ec ->
+    exists s1, step (cfg_repo d) s' (LOpenRead w) = Some s1 /\
+      cs s1 w = if (S ec <? retries (cfg_repo d))%nat then CSleep (S ec) (now s' + esleep (cfg_repo d)) else CStale (S ec).
+Proof.
+  intros d Hd s0 t i s ls s' R.
+  apply (empty_recovers (cfg_repo d) (repo_checks d) (repo_good d Hd)).
+  exact (HBInv_reach (cfg_repo d) (repo_checks d) (repo_good d Hd) any_label s0 R).
+Qed.
+Print Assumptions C08_empty_recovers.
+
+(** Without the fix the statement is false: the zombie heartbeat. *)
+Theorem C08_stale_recovers_refuted_zombie :
+  exists s0, run cfg_nofix init zombie_prefix = Some s0 /\
+    cs s0 1%nat = CDead /\ (exists ec u, cs s0 2%nat = CSleep ec u) /\
+    forall n, exists s i cr u, run cfg_nofix s0 (zombie_rounds n) = Some s /\
+      now s = now s0 + Z.of_nat n * (5 * sec) /\ cs s 1%nat = CDead /\
+      file s = Some i /\ content s i = FMeta cr u /\ is_stale cfg_nofix (now s) cr u = false.
+Proof. exact stale_recovers_refuted_zombie. Qed.
+Print Assumptions C08_stale_recovers_refuted_zombie.
+
+(** The hypothesis "no waiter gives up on an empty live file" cannot be dropped for the
+    code as it is: emptyCount is cumulative over the whole Lock call, so eight gap reads
+    spread over a 40 s hold (with successful reads in between, heartbeats on time, nobody
+    killed) end with two holders. *)
+Theorem C08_mutex_refuted_empty_count :
+  exists s i1 i2, run cfg_asis init empty_count_run = Some s /\
+    (forall p, ~ In (LKill p) empty_count_run) /\
+    cs s 0%nat = CHolding i1 /\ cs s 1%nat = CHolding i2 /\ i1 <> i2.
+Proof. exact mutex_refuted_empty_count. Qed.
+Print Assumptions C08_mutex_refuted_empty_count.
+
+(** Distinct names never block each other — for names with different Safe images: their
+    lock files are different files, and steps on one lock file neither change nor enable
+    or disable steps on another. *)
+Theorem C08_distinct_files_independent : forall lower is_space,
+  (forall c, is_upper_ascii (lower c) = false) ->
+  forall root n1 n2, good_str root = true ->
+  safe lower is_space n1 <> safe lower is_space n2 ->
+  lock_filename lower is_space root n1 <> lock_filename lower is_space root n2.
+Proof.
+  intros lower is_space H2 root n1 n2 Hr Hne E.
+  destruct (lockfile_in_locks_dir lower is_space H2 root n1 Hr) as [K1 _].
+  destruct (lockfile_in_locks_dir lower is_space H2 root n2 Hr) as [K2 _].
+  rewrite E, K2 in K1. apply app_inv_head in K1. injection K1; intros K.
+  apply app_inv_tail in K. congruence.
+Qed.
+Print Assumptions C08_distinct_files_independent.
+
+Theorem C08_lock_files_do_not_interact : forall c s1 s2 l,
+  (forall s1' s2', step2 c (s1, s2) (L1 l) = Some (s1', s2') -> s2' = s2 /\ step c s1 l = Some s1') /\
+  (forall s2', step c s2 l = Some s2' -> (forall d, l <> LTick d) -> (forall p, l <> LKill p) ->
+               step2 c (s1, s2) (L2 l) = Some (s1, s2')).
+Proof. intros c s1 s2 l. split; [apply step2_independent | apply step2_enabled]. Qed.
+Print Assumptions C08_lock_files_do_not_interact.
+
+(** ... but not for all distinct names: Safe is not injective *)
+Theorem C08_distinct_names_refuted_safe_collision :
+  let n1 := [97; 43; 98]%N (* "a+b" *) in
+  let n2 := [97; 95; 112; 108; 117; 115; 95; 98]%N (* "a_plus_b" *) in
+  n1 <> n2 /\
+  lock_filename (tbl_lower []) (tbl_space []) [114]%N n1 = lock_filename (tbl_lower []) (tbl_space []) [114]%N n2.
+Proof. split; [discriminate | vm_compute; reflexivity]. Qed.
+Print Assumptions C08_distinct_names_refuted_safe_collision.
+
+(** ** non-vacuity *)
+Definition d2 : Z := 2000000000.
+Example C08_H_live_satisfiable : H_live d2.
+Proof. unfold H_live, d2, lock_stale_factor, lock_freshness_interval. lia. Qed.
+
+(** a run without kills or give-ups in which one thread holds across two heartbeats while
+    another polls *)
+Definition demo_live : list label :=
+  [LStart 0 0; LTryCreate 0; LWriteMeta 0; LStart 1 1; LTryCreate 1; LOpenRead 1;
+   LTick 5000000000; LHbWake 0; LHbWrite 0; LWake 1; LTryCreate 1; LOpenRead 1;
+   LTick 5000000000; LHbWake 0; LWake 1; LTryCreate 1; LOpenRead 1; LHbWrite 0]%nat.
+
+Fixpoint reach_run (c : config) (ok : state -> label -> bool) (s : state) (ls : list label) : option state :=
+  match ls with
+  | [] => Some s
+  | l :: r => if ok s l then match step c s l with Some s' => reach_run c ok s' r | None => None end else None
+  end.
+Lemma reach_run_sound c (okb : state -> label -> bool) (ok : state -> label -> Prop) :
+  (forall s l, okb s l = true -> ok s l) ->
+  forall ls s0 s s', reach c ok s0 s -> reach_run c okb s ls = Some s' -> reach c ok s0 s'.
+Proof.
+  intros Hok. induction ls as [|l ls IH]; intros s0 s s' R; cbn [reach_run].
+  - intros E; injection E; intros <-; exact R.
+  - destruct (okb s l) eqn:Eo; [|discriminate]. destruct (step c s l) as [s1|] eqn:Es; [|discriminate].
+    apply IH. econstructor; eauto.
+Qed.
+Definition live_okb (c : config) (s : state) (l : label) : bool :=
+  match l with
+  | LKill _ => false
+  | LOpenRead t =>
+      match cs s t, file s with
+      | CExists ec, Some i => match content s i with FEmpty => (S ec <? retries c)%nat | _ => true end
+      | _, _ => true
+      end
+  | _ => true
+  end.
+Lemma live_okb_sound c s l : live_okb c s l = true -> live_ok c s l.
+Proof.
+  intros H. split.
+  - intros p ->. discriminate.
+  - intros (t & ec & i & -> & Hc & Hf & Hct & Hr). unfold live_okb in H. rewrite Hc, Hf, Hct in H. congruence.
+Qed.
+
+Example C08_live_run_nontrivial :
+  exists s, reach (cfg_repo d2) (live_ok (cfg_repo d2)) init s /\
+            cs s 0%nat = CHolding 0%nat /\ (exists ec u, cs s 1%nat = CSleep ec u) /\ now s = 10000000000.
+Proof.
+  destruct (reach_run (cfg_repo d2) (live_okb (cfg_repo d2)) init demo_live) as [s|] eqn:E; [|vm_compute in E; discriminate].
+  exists s. split.
+  - apply (reach_run_sound _ _ _ (live_okb_sound (cfg_repo d2)) demo_live init init s); [constructor | exact E].
+  - revert E. vm_compute. intros E; injection E; intros <-. cbn. eauto.
+Qed.
+
+(** the hypotheses of the recovery theorem are met: a holder that has been refreshed once
+    is killed; 10 s and a bit later the waiter (thread 1) is at the top of its loop *)
+Definition demo_before_kill : list label :=
+  [LStart 0 0; LTryCreate 0; LWriteMeta 0; LStart 1 1; LTryCreate 1; LOpenRead 1;
+   LTick 5000000000; LHbWake 0; LHbWrite 0; LTick 1000000000]%nat.
+Definition demo_after_kill : list label := [LTick 10000000001; LWake 1%nat].
+Example C08_recovery_hypotheses_satisfiable :
+  exists s0 s s', reach_run (cfg_repo d2) (fun _ _ => true) init demo_before_kill = Some s0 /\
+    cs s0 0%nat = CHolding 0%nat /\ file s0 = Some 0%nat /\
+    content s0 0%nat = FMeta (Some 0) (Some 5000000000) /\
+    step (cfg_repo d2) s0 (LKill (cproc s0 0%nat)) = Some s /\
+    run (cfg_repo d2) s demo_after_kill = Some s' /\ file s' = Some 0%nat /\
+    lock_stale_factor * lock_freshness_interval < now s' - now s0 /\ cs s' 1%nat = CTry 0.
+Proof.
+  eexists. eexists. eexists.
+  split; [vm_compute; reflexivity|].
+  split; [vm_compute; reflexivity|].
+  split; [vm_compute; reflexivity|].
+  split; [vm_compute; reflexivity|].
+  split; [vm_compute; reflexivity|].
+  split; [vm_compute; reflexivity|].
+  split; [vm_compute; reflexivity|].
+  split; vm_compute; reflexivity.
+Qed.
